@@ -652,10 +652,10 @@ attrsLoop:
 						var appended bool
 						if htmlAttr.Key == "rel" && (addNoFollow || addNoReferrer) {
 
-							if addNoFollow && !strings.Contains(htmlAttr.Val, "nofollow") {
+							if addNoFollow && !hasRelToken(htmlAttr.Val, "nofollow") {
 								htmlAttr.Val += " nofollow"
 							}
-							if addNoReferrer && !strings.Contains(htmlAttr.Val, "noreferrer") {
+							if addNoReferrer && !hasRelToken(htmlAttr.Val, "noreferrer") {
 								htmlAttr.Val += " noreferrer"
 							}
 							noFollowFound = addNoFollow
@@ -665,7 +665,7 @@ attrsLoop:
 						}
 
 						if elementName == "a" && htmlAttr.Key == "target" {
-							if htmlAttr.Val == "_blank" {
+							if strings.EqualFold(htmlAttr.Val, "_blank") {
 								targetBlankFound = true
 							}
 							if addTargetBlank && !targetBlankFound {
@@ -729,7 +729,7 @@ attrsLoop:
 						for _, htmlAttr := range cleanAttrs {
 							var appended bool
 							if htmlAttr.Key == "rel" {
-								if strings.Contains(htmlAttr.Val, "noopener") {
+								if hasRelToken(htmlAttr.Val, "noopener") {
 									noOpenerAdded = true
 									tmpAttrs = append(tmpAttrs, htmlAttr)
 								} else {
@@ -997,6 +997,17 @@ func linkable(elementName string) bool {
 	default:
 		return false
 	}
+}
+
+// hasRelToken returns true if the space separated token list rel contains
+// token (link types are ASCII case-insensitive)
+func hasRelToken(rel string, token string) bool {
+	for _, t := range strings.Fields(rel) {
+		if strings.EqualFold(t, token) {
+			return true
+		}
+	}
+	return false
 }
 
 // stringInSlice returns true if needle exists in haystack
